@@ -207,7 +207,7 @@ prop("C09",
      _t(tier, ["-n", "6000", "-big", "600"], ["-n", "150000", "-big", "20000"]),
      trace=("Trace_Range", "Trace_Range.cfg"),
      required=["impl:soft", "impl:wrap", "impl:mixed", "coll:resources", "coll:soft", "coll:wrapcol", "rules",
-               "filtered", "ids", "nonempty-page", "big", "huge-size", "long-id-list", "kind:uint64", "kind:*bytes", "kind:*time", "kind:bool"],
+               "filtered", "ids", "nonempty-page", "big", "huge-size", "long-id-list", "blank-in-id-list", "kind:uint64", "kind:*bytes", "kind:*time", "kind:bool"],
      level_text="An operational Range in TLA+ (select, filter with the C10 specification, stable sort by the rules, "
                 "page) is model-checked against the declarative RangeOK over some forty thousand cases (all value assignments of "
                 "three resources incl. nil, 43 rule lists, sizes 0-3, filters, id lists, all six input orders). The "
